@@ -28,7 +28,7 @@ type c14Case struct {
 var c14Alphabet = []string{"a", "b", "Z", " ", "é", "€", "😀", "́", "ß", "İ", "'", "\\", "x",
 	// characters with a case mapping outside the Lu/Ll categories (title case, letter numbers,
 	// enclosed letters), and the characters a regexp/template engine treats specially
-	"ǅ", "Ⅷ", "Ⓐ", "ᾈ", "$", "1", "{", "}", ".", "*", "(", "[", "^", "+", "?", "|"}
+	"ǅ", "Ⅷ", "Ⓐ", "ᾈ", "\uFFFD", "$", "1", "{", "}", ".", "*", "(", "[", "^", "+", "?", "|"}
 var c14Small = []string{"a", "b", "é", "€", "😀"}
 
 func c14GenStr(s Src, lo, hi int) string { return s.Str(c14Alphabet, lo, hi) }
